@@ -316,7 +316,9 @@ func (vc *VCache) SupervoxelSplitsJSON(v dvid.VersionID) (string, error) {
 	}
 	var items []string
 	for _, ancestor := range ancestors {
+		vc.splitsMu.RLock()
 		splitops, found := vc.splits[ancestor]
+		vc.splitsMu.RUnlock()
 		if !found || len(splitops) == 0 {
 			continue
 		}
